@@ -525,10 +525,14 @@ impl<'a> Exec<'a> {
 	}
 
 	fn max_dirty(&self) -> usize {
+		// enact_logs waits for the cleanup worker when *more than* 4 (16 without sync_data) consumed
+		// logs are dirty after a record was applied; a call that meets the end of a file adds one and
+		// returns. Without sync_data only logs beyond the 16 most recent are reclaimed, so the limit
+		// has to be reachable (17 dirty) for reclamation to happen at all.
 		if self.cfg.sync_data {
 			4
 		} else {
-			16
+			17
 		}
 	}
 
